@@ -1,10 +1,16 @@
 package main
 
 func init() {
+	registerProp(&PropCfg{ID: "C03", Families: []string{"POST", "FRAME", "SAFE"},
+		Composition: "body sees definition scope: the call's scope is a fresh copy of the closure's own scope whose enclosing scope is the definition scope (by reference, so later assignments there are visible), and it is neither the caller's scope nor the closure's stored scope; assignments write only the innermost store (FRAME.scope on every function held to the EC frame). Unchecked: induction over nesting; symhash injectivity; evalCallable (closure creation) is out of reach (address of a by-value parameter's field escapes) and the positional/keyword binding loops of assignArgsToEnv are only frame-checked; iterator stores are identified by an assumed invariant"})
+	registerProp(&PropCfg{ID: "C12", Families: []string{"POST", "FRAME", "SAFE"},
+		Composition: "all conditional constructs reduce to isTruthy/canShortCut, which call the receiver's B once; per-construct contracts over the ghost call log give exactly-one-branch and at-most-once evaluation of the right operand. Assumed: start-up DI binds each prototype's B to the verified built-in; objects with a user-defined B are covered by the same call (whatever it returns, only `true` counts)"})
+	registerProp(&PropCfg{ID: "C15", Families: []string{"POST", "FRAME", "SAFE", "WF"},
+		Composition: "evalStmts = _evalStmts then evalDefer on every path; _evalStmts collects a DeferObj exactly when a statement's value is one (loop step contract); evalDefer evaluates them in order, once, stopping at the first error; nested calls have their own lists. Unchecked: induction over nesting; evalPanFuncCall/evalIterCall reach the body through evalStmts (C03/C14)"})
 	registerProp(&PropCfg{ID: "C01", Families: []string{"SAFE", "WF", "POST"},
 		SweepPrefixes: []string{"object.", "evaluator.", "props."}, SweepFamilies: []string{"SAFE", "WF"},
 		SweepExclude: []string{"object.(*PanObj).AddPairs"},
-		Composition: "induction on the evaluation: every value reaching a built-in was produced by a constructor or an evaluating function whose contract gives well-formedness; under well-formedness no swept instruction panics. Unchecked: the induction; termination/stack/memory (excluded by the property); the parser below tryParse's recover; goroutine start-up code in di; the echo HTTP module"})
+		Composition:  "induction on the evaluation: every value reaching a built-in was produced by a constructor or an evaluating function whose contract gives well-formedness; under well-formedness no swept instruction panics. Unchecked: the induction; termination/stack/memory (excluded by the property); the parser below tryParse's recover; goroutine start-up code in di; the echo HTTP module"})
 	registerProp(&PropCfg{ID: "C06", Families: []string{"FRAME"},
 		SweepPrefixes: []string{"object.", "evaluator.", "props."}, SweepFamilies: []string{"FRAME"},
 		SweepExclude: []string{"object.(*PanObj).AddPairs"},
